@@ -3,7 +3,7 @@
    usage: panic_sites.py scan            print the current inventory as JSON
           panic_sites.py compare FILE    compare with a committed inventory; exit 1 + diff on mismatch"""
 import json, re, sys, os
-REPO = "/repo"
+REPO = os.environ.get("VERIF_REPO") or "/repo"   # VERIF_REPO: development aid, see ./check
 FILES = ["src/parser.rs", "src/bdd.rs", "src/bin/rsbdd.rs", "src/truth_table.rs", "src/bdd_io.rs",
          "src/parser_io.rs", "src/symbols.rs"]
 KINDS = [
